@@ -7,11 +7,16 @@
 (* Used by DjangoTrace (trace validation) and DjangoSeq (design level).    *)
 (***************************************************************************)
 EXTENDS CacheOps
+CONSTANT DjDev      \* named deviations of the composition (design-level must-fail configs); {} for the code as it is
 \* made key: text "prefix:version:key"; versions are single digits
-Made(t, k, ver) == <<1>> \o t.init.prefix \o <<58, 48 + (IF ver = 0 THEN t.init.version ELSE ver), 58>> \o k
+\* deviation D_version_ignored: the version left out of the made key
+Made(t, k, ver) == IF "D_version_ignored" \in DjDev THEN <<1>> \o t.init.prefix \o <<58, 58>> \o k
+                   ELSE <<1>> \o t.init.prefix \o <<58, 48 + (IF ver = 0 THEN t.init.version ELSE ver), 58>> \o k
 \* timeout argument: <<"d">> DEFAULT_TIMEOUT, <<"n">> None, <<"t", n>> a number
 Ttl(t, tm) == LET eff == IF tm[1] = "d" THEN t.init.timeout ELSE tm
               IN IF eff[1] = "n" THEN NoTtl
+                 \* deviation D_default_zero_forever: a backend TIMEOUT of 0 reaching the cache as "no expiry"
+                 ELSE IF eff[2] = 0 /\ tm[1] = "d" /\ "D_default_zero_forever" \in DjDev THEN NoTtl
                  ELSE IF eff[2] = 0 THEN <<-1>> ELSE <<eff[2]>>
 FF == <<FALSE, FALSE>>
 V(ok, Sn, why) == [ok |-> ok, S |-> Sn, why |-> why]
